@@ -51,19 +51,22 @@ type Config struct {
 }
 
 type Request struct {
-	Seq     uint64
-	Task    string
-	Host    string
-	Method  string
-	Path    string
-	Query   string
-	Header  http.Header
-	Ranges  [][2]int64
-	Status  int
-	Shape   string
-	Fault   string
-	Blob    string
-	AtNs    int64
+	Seq    uint64
+	Task   string
+	Host   string
+	Method string
+	Path   string
+	Query  string
+	Header http.Header
+	Ranges [][2]int64
+	Status int
+	Shape  string
+	Fault  string
+	// FaultSeq is the event sequence number at which the fault took effect (a request may have
+	// arrived, Seq, long before: latency)
+	FaultSeq uint64
+	Blob     string
+	AtNs     int64
 }
 
 type Registry struct {
@@ -159,7 +162,7 @@ func (r *Registry) RoundTrip(req *http.Request) (*http.Response, error) {
 		fault = kinds[r.draw(t, len(kinds))]
 		rec.Fault = fault
 		r.Stats["fault."+fault]++
-		r.S.Event("regfault %s", fault)
+		rec.FaultSeq = r.S.Event("regfault %s", fault)
 	}
 	switch fault {
 	case "conn":
